@@ -38,6 +38,7 @@ type Solver struct {
 	Time                   time.Duration
 	errs                   []string
 	timeoutMs              int
+	pushed                 bool
 	argv                   []string
 }
 
@@ -183,6 +184,7 @@ func (s *Solver) Check(pc []*Term, extra *Term, timeoutMs int) Result {
 }
 
 func (s *Solver) check(pc []*Term, extra *Term, timeoutMs int, keep bool) Result {
+	s.pushed = false
 	if extra != nil && extra.IsFalse() {
 		return Unsat
 	}
@@ -191,6 +193,7 @@ func (s *Solver) check(pc []*Term, extra *Term, timeoutMs int, keep bool) Result
 			return Unsat
 		}
 	}
+	s.pushed = true
 	t0 := time.Now()
 	s.setStack(pc)
 	s.setTimeout(timeoutMs)
@@ -259,6 +262,9 @@ var slowLog = false
 func (s *Solver) Model(pc []*Term, extra *Term, timeoutMs int, want []*Term) (Result, []*Term) {
 	nerr := len(s.errs)
 	res := s.check(pc, extra, timeoutMs, true)
+	if !s.pushed {
+		return res, nil
+	}
 	defer s.send("(pop 1)\n")
 	if res != Sat || len(want) == 0 {
 		return res, nil
